@@ -25,6 +25,12 @@ func genOptions(t *rapid.T) *Options {
 			Dup: rapid.SampledFrom([]int{0, 0, 0, 0, 0, 0, 0, 1, 2, 3}).Draw(t, "dup"),
 			RMs: rapid.SampledFrom([]int{0, 0, 0, 0, 1, 5}).Draw(t, "rms"), DMs: rapid.SampledFrom([]int{0, 0, 0, 1, 5, 20, 20}).Draw(t, "dms")})
 	}
+	for i := range o.MEs {
+		if rapid.IntRange(0, 5).Draw(t, "epname") == 0 {
+			// the MultiEndpoint is called like an endpoint address (its own primary one, or any)
+			o.MEs[i].Name = 100 + rapid.SampledFrom(append([]int{o.MEs[i].Eps[0]}, 0, 1, 2, 3)).Draw(t, "epnameidx")
+		}
+	}
 	o.Default = rapid.IntRange(0, n-1).Draw(t, "def")
 	return o
 }
